@@ -1010,7 +1010,15 @@ func (r *Runner) attempt(i int, n *Node, s *Step, req ExecReq, at Attempt, t0 *T
 		if tries == 1 && failedTry == 1 && len(s.Ops) > 0 {
 			for _, cu := range t.CodeUpdates {
 				for _, o := range s.Ops {
-					if o.K == "ct.tryUpdate" && strings.Contains(cu, fmt.Sprintf("%s.%s ", addr(uint64(o.A)).Hex(), o.S)) {
+					// only if no other lifecycle operation of this transaction targets the same contract (a later
+					// `update` of the same name legitimately sends the host a code update)
+					others := 0
+					for _, o2 := range s.Ops {
+						if o2.A == o.A && o2.S == o.S && (o2.K == "ct.add" || o2.K == "ct.update" || o2.K == "ct.remove" || o2.K == "ct.tryUpdate") {
+							others++
+						}
+					}
+					if o.K == "ct.tryUpdate" && others == 1 && strings.Contains(cu, fmt.Sprintf("%s.%s ", addr(uint64(o.A)).Hex(), o.S)) {
 						r.violate("C26", "tryUpdate.failed-changes-nothing", i, n.Cfg.Name, "tryUpdate-failed-but-code-updated:"+t.Trace[t.FiredSeq].Kind,
 							"tryUpdate of %s reported failure (host fault %v absorbed) but the host received the code update: %s", o.S, t.Fired, cu)
 					}
